@@ -47,7 +47,10 @@ def build_harness(ctx, cmds):
     # a private copy of the harness module so that concurrent checks and a
     # different VERIF_REPO do not step on each other
     hdir = os.path.join(ctx.scratch, "harness")
-    shutil.copytree(HARNESS, hdir, ignore=shutil.ignore_patterns("bin", "go.sum"))
+    if os.path.exists(hdir):   # a second build in the same check (another command): reuse the private copy
+        cmds = [c for c in cmds if not os.path.exists(os.path.join(ctx.bin, c))]
+    else:
+        shutil.copytree(HARNESS, hdir, ignore=shutil.ignore_patterns("bin", "go.sum"))
     gomod = open(os.path.join(hdir, "go.mod")).read().replace("=> /repo", "=> " + REPO)
     open(os.path.join(hdir, "go.mod"), "w").write(gomod)
     shutil.copy(os.path.join(REPO, "go.sum"), os.path.join(hdir, "go.sum"))
